@@ -247,6 +247,12 @@ def oracle(c, o):
         if o["exc"] != "ValueError" or files != before:
             return "backup name equal to input/output must be refused before anything is written: exc=%s files=%s" % (o["exc"], sorted(files))
         return None
+    if c["explicit"] and "open_explicit" in o:
+        dec = F.text_mode_decode(data, c["explicit"])
+        if dec is None and o["open_explicit"] != ["err", "UnicodeDecodeError"]:
+            return "open(encoding=%s): the file does not decode under it, expected UnicodeDecodeError, got %s" % (c["explicit"], str(o["open_explicit"])[:120])
+        if dec is not None and o["open_explicit"][0] == "err" and o["open_explicit"][1] == "UnicodeDecodeError":
+            return "open(encoding=%s): the file decodes under it but UnicodeDecodeError was raised" % c["explicit"]
     if first is None:
         if o["open"] != ["err", "UnicodeDecodeError"] or o["exc"] != "UnicodeDecodeError" or files != before:
             return "no tried encoding decodes the file: expected UnicodeDecodeError and an untouched directory, got %s / %s" % (o["open"], o["exc"])
